@@ -51,7 +51,8 @@ def generate(seed, index, tier):
     simple = rng.random() < 0.6
     h = history.gen_history(rng, simple=simple,
                             two_apps=rng.random() < 0.6,
-                            shared_labels=rng.random() < 0.4,
+                            shared_labels=(rng.random() < 0.4) and (
+                                'offset' if index % 2 else True),
                             nsteps=rng.choice([2, 3, 3, 4]))
     P = h['project']
     n = proj.n_versions(P) - 1
@@ -59,8 +60,16 @@ def generate(seed, index, tier):
     vmax = max(1, n - 1) if purge_mode else n
     script = []
     v = rng.choice([0, 0, 1]) if n > 1 else 0
-    script.append({'do': 'deploy', 'v': v})
+    # an app that joins INSTALLED_APPS in a later release is installed
+    # fresh on a database that already has recorded evolutions
+    late_install = 'vb' in P['apps'] and not purge_mode and index % 4 == 1
+    script.append({'do': 'deploy', 'v': v,
+                   **({'apps': ['vb']} if late_install else {})})
     script.append({'do': 'run', 'driver': 'command'})
+    if late_install and v < vmax:
+        v = min(vmax, v + 1)
+        script.append({'do': 'deploy', 'v': v, 'apps': ['vb']})
+        script.append({'do': 'run', 'driver': 'command'})
     steps = rng.randint(3, 8)
     for _ in range(steps):
         r = rng.random()
@@ -175,8 +184,7 @@ def execute(scn):
                 proj.deploy(ws, P, step['v'], sts, apps=step.get('apps'),
                             clean=bool(step.get('apps')))
                 cur_v = step['v']
-                if step.get('apps'):
-                    active = list(step['apps'])
+                active = list(step.get('apps') or P['order'])
                 continue
             if step['do'] == 'wipe_only':
                 rows = prev['book'].get('django_evolution') or []
@@ -269,9 +277,12 @@ def execute(scn):
             run_idx += 1
             if cur_v is not None and not rows_loaded and r.status == 'ok':
                 import sqlite3
+                have = {x[1] for x in snapshot.snapshot(ws)['master']
+                        if x[0] == 'table'}
                 try:
-                    rowmodel.load(ws.db_path(),
-                                  scn['rows_by_version'][cur_v])
+                    rowmodel.load(ws.db_path(), {
+                        t: v2 for t, v2 in
+                        scn['rows_by_version'][cur_v].items() if t in have})
                 except (sqlite3.IntegrityError, sqlite3.OperationalError):
                     stats['rows_rejected'] = 1
                 rows_loaded = True
@@ -377,6 +388,9 @@ def execute(scn):
         stats['simple_history'] = 1
     if len(P['order']) > 1:
         stats['multi_app'] = 1
+    if any(s2.get('apps') == ['vb'] and i2 == 0
+           for i2, s2 in enumerate(scn['script'])):
+        stats['late_install'] = 1
     stats['runs_executing_evolutions'] = n_exec_runs
     res['sample'] = {'script': [
         {k: v for k, v in s.items() if k != 'pick'} for s in scn['script']],
